@@ -18,7 +18,7 @@ LEVEL_TEXT = ("Bounded symbolic execution of ALL differentiation routes on the s
               "solver-checked forks.")
 BOUNDS = {
     "quick": {"families": "F1 node lemmas over possibly-undefined children P (all routes), F1 over V, DAG sharing, masked offenders, stratified F2 and "
-              "every 3rd F4 pattern (5 representative routes), symbolic constants; structural claims on F1/F2/F4 subsets",
+              "every 5th F4 pattern (5 representative routes), symbolic constants; structural claims on F1/F2/F4 subsets",
               "outside": "deeper trees, n>7, arity>4, rounding size"},
     "thorough": {"families": "as quick with all of F2 and F4 (7 routes), F3 chains (every 5th), seeded F5", "outside": "deeper trees, n>7, arity>4, rounding size"},
 }
@@ -31,6 +31,9 @@ ONEVAR = ["deriv", "deriv_num", "deriv_early", "deriv_after_asexp"]
 REP = ["fwd", "rev", "fwd_early", "diff_at_early", "fwd_after_asexp"]
 REP7 = REP + ["diff_comp_at", "diff_comp_at_early"]
 STRUCT = ["struct_partial_early_late", "struct_diff_early_late", "eq_diff_component_partial", "eq_diff_at_located", "synth_rev", "synth_diff_late"]
+
+
+ROUNDING_PRONE = [[1.1, 2.3], [0.3, 0.7], [1.7, 0.9], [3, 7], [2, 2], [0.7, 1.3], [5, 3]]
 
 
 def jobs(tier, seed):
@@ -51,6 +54,9 @@ def jobs(tier, seed):
     for d in fam.f1_shared(tier):
         add(d, ALL, var="x")
         add(d, STRUCT, var="y")
+    for d in [["NthRoot", ["Multiply", fam.X, fam.Y], 2], ["Logarithm", ["Multiply", fam.X, fam.Y], 3], ["Divide", ["NthRoot", fam.X, 3], fam.Y],
+              ["Multiply", ["Exponential", fam.X], ["Sine", fam.Y]], ["Power", fam.X, fam.Y]]:
+        add(d, ["eq_diff_at_located", "eq_diff_component_partial"], var="x")
     m = c02.masked()
     for d in (m if tier == "thorough" else m[::3]):
         add(d, REP7, var="x")
@@ -66,7 +72,7 @@ def jobs(tier, seed):
         if i % 7 == 0:
             add(d, REP, var="y")
     pats = f4.f4(tier)
-    for i, d in enumerate(pats if tier == "thorough" else pats[::3]):
+    for i, d in enumerate(pats if tier == "thorough" else pats[::5]):
         vs = rt.variables_of(d)
         if vs:
             add(d, REP if tier == "quick" else REP7, var=vs[0])
@@ -114,6 +120,14 @@ def vcs(spec, ctx, outs):
         out = outs[base + k]
         if out["kind"] == "value" and out["value"] is True:
             res.append(VC(f"{r}:holds", None, None, {"failed": False}))
+            if r == "eq_diff_at_located":
+                # equal over the reals; the stored partials of the two routes may round differently: decided by real runs at rounding-prone points
+                idx0 = base + k
+
+                def fj(val, couts, idx0=idx0):
+                    c = couts[idx0]
+                    return f"Differential(e).at(p) == LocatedDifferential(e, p) is {c.get('value')!r}" if (c["kind"] == "value" and c.get("value") is not True) else None
+                res.append(VC(f"{r}:floating-point", z3.BoolVal(True), fj, {"concrete_only": True, "candidates": ROUNDING_PRONE}))
             continue
         # comparing objects evaluates the expression (Differential.at, LocatedDifferential): DomainError outside the domain is right
         v = common.kind_vc(f"{r}", ctx, out, z3.Not(ctx.indom) if out["kind"] == "DomainError" else z3.BoolVal(False), base + k)
